@@ -110,6 +110,8 @@ def case_name(c):
         s += "/order=" + "".join(map(str, c["order"]))
     if c.get("codes") is not None:
         s += "/codes=" + ",".join(map(str, c["codes"]))
+    if c.get("int_sentinel"):
+        s += "/alphabet with the integer null sentinel"
     return s
 
 
@@ -122,7 +124,15 @@ def build(case, inp):
             inp.vars["k"] = ("const", list(case["codes"]), "int64")
     else:
         d["codes"] = inp.codes("k", N, G)
-    if case["func"] != "size":
+    if case.get("int_sentinel"):
+        # plain int64 data over a small alphabet that CONTAINS the library's integer null sentinel (at most one, so nothing overflows)
+        vs = inp.ints("v", N, MIN_INT, 8, dt)
+        if inp.concrete is None:
+            for v in vs:
+                inp.pre.append(z3.Or(v == MIN_INT, z3.And(v >= 0, v <= 8)))
+            inp.pre.append(z3.Sum([z3.If(v == MIN_INT, 1, 0) for v in vs]) <= 1)
+        d["values"] = vs
+    elif case["func"] != "size":
         d["values"] = inp.values("v", N, dt, sum_safe=("squares" if case["func"] == "sum_squares" else case["func"] in ("sum", "mean")))
     m = case["mask"]
     if m["kind"] == "bool_sym":
@@ -173,6 +183,11 @@ def spec_bads(case, d, res, count_res=None, label=""):
         lab = f"{label}{func}[g={g}]"
         if func in ("size", "count"):
             bads.append((lab, b_not(num(r) == nvalid)))
+        elif func == "sum" and case.get("int_sentinel"):
+            # plain integer sums do not skip: a null sentinel among the group's selected rows makes the sum null
+            poisoned = b_or(*[b_and(mb, num(v) == MIN_INT) for mb, (c, v, s) in zip(member, rows)])
+            exp = ite(poisoned, MIN_INT, total([ite(mb, num(v), 0) for mb, (c, v, s) in zip(member, rows)], 0))
+            bads.append((lab, b_not(same(r, exp))))
         elif func in ("sum", "sum_squares"):
             if func == "sum_squares":
                 terms = [ite(vd, _sq(num(v)), 0) for vd, (c, v, s) in zip(valid, rows)]
